@@ -276,6 +276,22 @@ def rule_automaton(facts):
     arr = [0, 1, 2, 3]
     for bb, di, si in cst:
         arr[di] = arr[si]
+    # ... or one store of the whole array, `self.rep = [_, r0, r1, r2]` built from the old elements
+    for blk in b.blocks:
+        if blk.cleanup or kind_of(blk.idx) != "match":
+            continue
+        for s_ in blk.stmts:
+            if s_.k == "assign" and s_.place.proj and s_.place.proj[-1][0] == "field" and s_.place.proj[-1][2] == "rep" and \
+                    s_.rv.k == "aggregate" and s_.rv.agg == "array" and len(s_.rv.ops) == 4:
+                els = [tm.of_operand(o) for o in s_.rv.ops]
+                old_arr = list(arr)
+                for i_, e_ in enumerate(els):
+                    if isinstance(e_, tuple) and e_ and e_[0] == "index" and pat.has_field(e_, "rep") and cidx(e_[2]) is not None:
+                        arr[i_] = old_arr[cidx(e_[2])]
+                        if i_ >= 1:
+                            pairs.add((i_, cidx(e_[2])))
+                    elif i_ >= 1:
+                        arr[i_] = None
     if {(3, 2), (2, 1), (1, 0)} <= pairs and arr[1:] == [0, 1, 2]:
         r.ok("evaluation", {"new-distance rotation": "rep[3]=rep[2]; rep[2]=rep[1]; rep[1]=rep[0] in this order: [_, r0, r1, r2]"})
     else:
@@ -316,8 +332,9 @@ def rule_automaton(facts):
             else:
                 r.bad("automaton|distance", "the copy distance is not rep[0] + 1: %s" % flow.show(d)[:80], pat.where(b, blk.idx))
     # end marker constant
-    mk = [s for (_, t, _, _) in gs for s in [pat.cmp_sides(t)] if s and s[0] == "Eq" and pat.has_const(t, 0xFFFF_FFFF)
-          and pat.has_field(t, "rep")]
+    stored0 = [src for bb, dst, src in rot if (dst[1] if dst[0] == "constindex" else cidx(tm.of_local(dst[1]))) == 0]
+    mk = [s for (_, t, _, _) in gs for s in [pat.cmp_sides(t)] if s and s[0] in ("Eq", "Ne") and pat.has_const(t, 0xFFFF_FFFF)
+          and (pat.has_field(t, "rep") or s[1] in stored0 or s[2] in stored0)]
     if mk:
         r.ok("term", {"end marker": "rep[0] == 0xFFFF_FFFF"})
     else:
@@ -768,7 +785,8 @@ def rule_window(facts):
             if (flow.declared(blk.term) or "").endswith("Write::write_all"):
                 t = tm.of_operand(blk.term.args[1])
                 if pat.has_field(t, "buf") and pat.has_field(t, "cursor") and flow.term_has(
-                        t, lambda q: q[0] == "agg" and q[1].endswith("Range") and q[2][0] == ("const", 0)):
+                        t, lambda q: q[0] == "agg" and ((q[1].endswith("Range") and q[2][0] == ("const", 0) and pat.has_field(q[2][1], "cursor")) or
+                                                        (q[1].endswith("RangeTo") and len(q[2]) == 1 and pat.has_field(q[2][0], "cursor")))):
                     okk = True
         r.sites += 1
         if okk:
